@@ -50,7 +50,11 @@ pub fn run_history(hist: &Value, out: &mut dyn Write) {
             match name {
                 "new" => {
                     let len = if op["nolen"].as_bool().unwrap_or(false) { None } else { Some(u64_of(&op["len"])) };
-                    pb = Some(ProgressBar::with_draw_target(len, ProgressDrawTarget::hidden()));
+                    // every other history (decided by its first operation) starts the bar with two minutes on its clock already (with_elapsed):
+                    // elapsed() and duration() shift, the rate and the eta are those of the same bar without it
+                    let backdated = op.to_string().bytes().fold(0u32, |a, b| a.wrapping_mul(31).wrapping_add(b as u32)) % 2 == 1;
+                    let b = ProgressBar::with_draw_target(len, ProgressDrawTarget::hidden());
+                    pb = Some(if backdated { b.with_elapsed(Duration::from_secs(120)) } else { b });
                     pos = 0; twin = None;
                 }
                 "adv" => { clock::advance(u64_of(&op["ns"])); }
